@@ -327,6 +327,30 @@ def run(ctx):
         ctx.violation({'what': 'recorded call rejected by Trace_IdLayout (%s): %s' % (bad[k], rec), 'record': rec},
                       finding=classify(c, {'err': False}, {'exc': rec['exc']}))
     ctx.sample({'recorded_call': recs[0]})
+    # ---- binding self-test: falsified observations must be rejected by the same judge ----------
+    import copy
+    fals = []
+    for k, rec in enumerate(recs):
+        if k in bad or rec['ret']['err'] or len(fals) >= 240:
+            continue
+        r2 = copy.deepcopy(rec)
+        m = len(fals) % 3
+        if m == 0:                      # one bit of the returned id flipped
+            b = (k * 7) % 64
+            ids = set(r2['ret']['id'])
+            ids.symmetric_difference_update({b})
+            r2['ret']['id'] = sorted(ids)
+            r2['unwrapped'] = {}
+        elif m == 1:                    # an in-range call reported as an error
+            r2['ret'] = {'err': True, 'id': []}
+            r2['unwrapped'] = {}
+        else:                           # the unwrapped fields do not give back the packed ones
+            if not isinstance(r2['unwrapped'], dict) or not r2['unwrapped'] or 'exc' in r2['unwrapped']:
+                continue
+            nme = sorted(r2['unwrapped'])[k % len(r2['unwrapped'])]
+            r2['unwrapped'][nme] += 1
+        fals.append(r2)
+    core.binding_selftest(ctx, 'Trace_IdLayout', fals, 'recorded_calls')
     ctx.exhaustive = not ctx.quick
 
 
